@@ -108,6 +108,11 @@ def strip_comments(src):
         elif c == "/" and src.startswith("/*", i):
             j = src.find("*/", i + 2)
             i = n if j < 0 else j + 2
+        elif c == "r" and re.match(r'r(#*)"', src[i:]) and (i == 0 or not (src[i - 1].isalnum() or src[i - 1] == "_")):
+            hashes = re.match(r'r(#*)"', src[i:]).group(1)
+            j = src.index('"' + hashes, i + 2 + len(hashes)) + 1 + len(hashes)
+            out.append(src[i:j])
+            i = j
         elif c == '"':
             _, j = parse_str_at(src, i, "string")
             out.append(src[i:j])
